@@ -102,7 +102,9 @@ func CallArgs(args ...interface{}) CallOption {
 				results = make([]reflect.Value, len(in))
 				for i, in := range in {
 					results[i] = reflect.New(in).Elem()
-					results[i].Set(reflect.ValueOf(args[i]))
+					if args[i] != nil { // untyped nil is passed as the zero value
+						results[i].Set(reflect.ValueOf(args[i]))
+					}
 				}
 				return
 			},
@@ -120,6 +122,9 @@ func CallResults(results ...interface{}) CallOption {
 		}
 		for i, out := range out {
 			v := reflect.ValueOf(results[i])
+			if !v.IsValid() {
+				return fmt.Errorf(`bigbuff.CallResults results[%d] error: nil is not a ptr`, i)
+			}
 			t := v.Type()
 			if kind := t.Kind(); kind != reflect.Ptr {
 				return fmt.Errorf(`bigbuff.CallResults results[%d] error: %v kind %v not ptr`, i, t, kind)
@@ -269,6 +274,14 @@ func resolveArgs(this reflect.Type, args []reflect.Type) ([]reflect.Type, error)
 		return nil, fmt.Errorf(`args error: invalid length: mandatory=%d variadic=%v len=%d`, len(in), variadic != nil, len(args))
 	}
 	for i, in := range in {
+		if args[i] == nil {
+			// untyped nil is assignable to any type which may be nil
+			switch in.Kind() {
+			case reflect.Chan, reflect.Func, reflect.Interface, reflect.Map, reflect.Ptr, reflect.Slice, reflect.UnsafePointer:
+				continue
+			}
+			return nil, fmt.Errorf(`args[%d] error: nil not assignable to %v`, i, in)
+		}
 		if !args[i].AssignableTo(in) {
 			return nil, fmt.Errorf(`args[%d] error: %v not assignable to %v`, i, args[i], in)
 		}
